@@ -153,16 +153,17 @@ def physical_spd(rng):
             return M / GPA
 
 
-def is_spd(M):
+def is_spd(M, floor=1e-3):
     M = numpy.asarray(M, float)
     if not numpy.all(numpy.isfinite(M)):
         return False
     ev = numpy.linalg.eigvalsh((M + M.T) / 2)
-    return bool(ev.min() > 1e-3 * ev.max())
+    return bool(ev.min() > floor * ev.max())
 
 
 CLASSES = ["triclinic", "monoclinic", "orthorhombic", "tetragonal7", "tetragonal6", "trigonal7", "trigonal6",
-           "hexagonal", "cubic", "isotropic", "triclinic-subset", "orthotropic-nine-of-21", "orthotropic+shear-shear"]
+           "hexagonal", "cubic", "isotropic", "triclinic-subset", "orthotropic-nine-of-21", "orthotropic+shear-shear",
+           "soft-mode"]
 
 
 def make_field(rng, cls, nt, ntv):
@@ -173,6 +174,15 @@ def make_field(rng, cls, nt, ntv):
         C0 = project(gen(rng), base_cls)
         D1 = project(gen(rng), base_cls)
         D2 = project(gen(rng), base_cls)
+        if cls == "soft-mode":
+            # positive definite with one elastically soft direction: condition number 3e3 .. 5e4 (below the 1e5 limit of
+            # the quantifier as modelled, above anything a truncating inverse would still treat exactly)
+            while True:
+                C0 = random_spd(rng, lo=0.02, hi=600.0)
+                ev = numpy.linalg.eigvalsh(C0)
+                if 3e3 < ev.max() / ev.min() < 5e4:
+                    break
+            D1, D2 = 0.5 * C0, 0.25 * C0
         keep = None
         if cls == "triclinic-subset":
             extra = [k for k in ALL21 if k not in ORTHO]
@@ -194,7 +204,7 @@ def make_field(rng, cls, nt, ntv):
                         for b in range(a, 7):
                             if "%d%d" % (a, b) not in keep:
                                 M[a - 1, b - 1] = M[b - 1, a - 1] = 0.0
-                ok = ok and is_spd(M)
+                ok = ok and is_spd(M, 1e-5 if cls == "soft-mode" else 1e-3)
                 row.append(M)
             grid.append(row)
         if not ok:
